@@ -17,8 +17,13 @@ type query struct {
 	End    int64            `json:"end"`
 	Addrs  []common.Address `json:"addrs"`
 	Topics [][]common.Hash  `json:"topics"`
-	Via    string           `json:"via"`  // "filter" | "api" | "api_json" | "api_installed"
-	Tmpl   string           `json:"tmpl"` // template name (forced) or "random"
+	// NullAlt: topic position -> index at which a JSON null is spliced into the
+	// list of that position's alternatives (JSON forms only). A null among the
+	// alternatives means "anything" ("null component, match all" in api.go, as in
+	// the eth_getLogs implementations this API mirrors): the position is a wildcard.
+	NullAlt map[int]int `json:"null_alt,omitempty"`
+	Via     string      `json:"via"`  // "filter" | "api" | "api_json" | "api_installed"
+	Tmpl    string      `json:"tmpl"` // template name (forced) or "random"
 }
 
 // matches is the filter semantics written from the JSON-RPC specification
@@ -58,6 +63,33 @@ func matches(l *xlog, addrs []common.Address, topics [][]common.Hash) bool {
 	return true
 }
 
+// effTopics is the criteria the query means: positions that carry a null among
+// their alternatives are wildcards.
+func (q *query) effTopics() [][]common.Hash {
+	if len(q.NullAlt) == 0 {
+		return q.Topics
+	}
+	out := make([][]common.Hash, len(q.Topics))
+	for i, alts := range q.Topics {
+		if _, ok := q.NullAlt[i]; ok {
+			out[i] = nil
+		} else {
+			out[i] = alts
+		}
+	}
+	return out
+}
+
+// nullNotLast reports whether some spliced null is followed by another alternative.
+func (q *query) nullNotLast() bool {
+	for p, at := range q.NullAlt {
+		if p < len(q.Topics) && at < len(q.Topics[p]) {
+			return true
+		}
+	}
+	return false
+}
+
 // bruteForce scans the canonical blocks lo..hi (inclusive) of the ledger.
 func bruteForce(canon [][]xlog, lo, hi int64, q *query) []*xlog {
 	var out []*xlog
@@ -66,7 +98,7 @@ func bruteForce(canon [][]xlog, lo, hi int64, q *query) []*xlog {
 			continue
 		}
 		for i := range canon[n] {
-			if matches(&canon[n][i], q.Addrs, q.Topics) {
+			if matches(&canon[n][i], q.Addrs, q.effTopics()) {
 				out = append(out, &canon[n][i])
 			}
 		}
@@ -180,7 +212,8 @@ func (p *pools) topic(r *fw.Rand) common.Hash {
 	return p.topics[r.Intn(len(p.topics))]
 }
 
-func (p *pools) criteria(r *fw.Rand) ([]common.Address, [][]common.Hash) {
+func (p *pools) criteria(r *fw.Rand) ([]common.Address, [][]common.Hash, map[int]int) {
+	var nullAlt map[int]int
 	var addrs []common.Address
 	switch r.Intn(5) {
 	case 0, 1:
@@ -208,10 +241,16 @@ func (p *pools) criteria(r *fw.Rand) ([]common.Address, [][]common.Hash) {
 			for j, n := 0, r.Range(2, 4); j < n; j++ {
 				alts = append(alts, p.topic(r))
 			}
+			if r.Chance(1, 4) {
+				if nullAlt == nil {
+					nullAlt = map[int]int{}
+				}
+				nullAlt[len(topics)] = r.Intn(len(alts) + 1)
+			}
 			topics = append(topics, alts)
 		}
 	}
-	return addrs, topics
+	return addrs, topics, nullAlt
 }
 
 // rangeAround draws a block range; boundary is the first unindexed block
@@ -277,8 +316,19 @@ func (q *query) jsonCriteria() []byte {
 	}
 	if len(q.Topics) > 0 {
 		var ps []string
-		for _, alts := range q.Topics {
+		for p, alts := range q.Topics {
+			at, spliced := q.NullAlt[p]
 			switch {
+			case spliced:
+				var ts []string
+				for _, t := range alts {
+					ts = append(ts, `"`+t.Hex()+`"`)
+				}
+				if at > len(ts) {
+					at = len(ts)
+				}
+				ts = append(ts[:at], append([]string{"null"}, ts[at:]...)...)
+				ps = append(ps, "["+strings.Join(ts, ",")+"]")
 			case alts == nil:
 				ps = append(ps, "null")
 			case len(alts) == 1:
